@@ -30,6 +30,46 @@ CHECKS.update({
    technique=TECH+"crash-image enumeration at in-transaction yield points (hook H1) + restart, refinement against a reference model", design="4 C13"),
 })
 
+W = "World = real VipnodePool + payPerInterval + PaymentService + store driver + request signing + jsonrpc2 on both ends of simulated connections, scripted agents. "
+CHECKS.update({
+ "C01": dict(level="exploration",
+   text=W+"Seeded sequential histories on both drivers; after every operation that returns, the credit sum (Stats().TotalCredit and, independently, the per-account getters) must be unchanged, except after a successful withdrawal where it must drop by exactly the settled credit. Concurrent interleavings are covered by the C10 scenarios.",
+   note="Connections, agents, chain deposit table and settlement handler are stubs. The sum is read from the inner store at quiescent points.",
+   technique=TECH+"pool operation histories with clock jumps; conservation invariant after every step", design="4 C01"),
+ "C02": dict(level="exploration",
+   text=W+"Keep-alive histories with elapsed times from 0 to days and prices up to 2^200; each accepted client keep-alive must move exactly floor(elapsed*price/interval) to every tracked active peer and the sum from the client (model mirror of every balance, compared after every operation); hosts, zero elapsed time and empty peer sets move nothing.",
+   note="The instant a handler reads the clock is only known to lie inside the operation: the charge may correspond to any instant within 200 microseconds after the stamped check-in (no handler stalls are injected in this scenario).",
+   technique=TECH+"keep-alive histories on a simulated clock vs an arithmetic reference ledger", design="4 C02"),
+ "C03": dict(level="exploration",
+   text=W+"Minimum unset/negative/zero/positive, balances placed around the threshold by deposit and credit, clients billed across it, hosts answering the disconnect fan-out with ack/error/silence: refusal at connect and cut-off at a billing keep-alive exactly when deposit+credit (after the charge) < minimum, the error carries that balance, every connected host peering with the client receives vipnode_disconnect, hosts are never refused.",
+   note="A keep-alive 'bills' when it charges a non-zero amount; the reported balance is parsed from the error text that crosses the RPC boundary.",
+   technique=TECH+"threshold-crossing histories with host faults in the disconnect fan-out", design="4 C03"),
+ "C04": dict(level="exploration",
+   text=W+"Inside live sessions an adversary sends, to every signed endpoint, a fresh correctly signed request with exactly one component altered (method, identity, nonce, one parameter leaf, one signature byte, other key, empty/garbage/truncated signature); each must be refused with a verification error, and every unaltered fresh request must pass verification.",
+   note="Alterations are applied to decoded values; the old-format vipnode_update signature (peers, block_number) that the code accepts for backward compatibility is not exercised with altered peers_info (see DESIGN section 5).",
+   technique=TECH+"single-component request alterations injected into live sessions", design="4 C04"),
+ "C06": dict(level="exploration",
+   text=W+"Refused requests of every kind (bad signature, wrong key, malformed signature, replayed or too-old nonce) between legitimate operations: the digest of the whole pool state (nodes, peers, links, balances, connected hosts, instructions received by hosts, settlements) and the count of mutating store operations must not change, and the owner's next request with a smaller fresh nonce must be accepted.",
+   note="Digest read from the inner store at quiescent points; time-derived statistics excluded.",
+   technique=TECH+"refused requests injected at arbitrary points of valid sessions; state-digest equality + follow-up nonce", design="4 C06"),
+ "C07": dict(level="exploration",
+   text=W+"Credit accrues through real billing, deposits come from the simulated chain; valid, repeated and below-minimum withdrawals, fee none/constant, settlement failing at chosen attempts: paid amount = balance - fee exactly once, nothing left to withdraw afterwards (so nothing is paid twice), nothing paid or changed on refusal or failure. Racing withdrawals are covered by c07_withdraw_race.",
+   note="Settlement is the SimSettle stub (sets the on-chain deposit to newBalance on success).",
+   technique=TECH+"accrual/withdrawal histories with settlement faults; races at store and settlement yield points", design="4 C07"),
+ "C08": dict(level="exploration",
+   text=W+"Populations of hosts/clients of several kinds, fresh/stale, connected/closed/reconnected, already peered or not; requested counts -2..supply+3, MaxRequestHosts 0/1/2/5, vipnode_peer and legacy vipnode_client; per-host whitelist policy ack/error/silent/slow with acknowledgement orders chosen by the scheduler: every returned host is eligible and acknowledged the whitelist call issued for this request before the reply was written (event sequence numbers), counts bounded, error only without hosts, exact count when everyone is eligible and acks, reply written within 5 s of simulated time after the pool read the request.",
+   note="Eligibility at the activity-window boundary (and within 6 s of it) is a don't-care.",
+   technique=TECH+"whitelist fan-out under host faults and delivery orders; eligibility/ack/count oracles + bounded liveness", design="4 C08"),
+ "C09": dict(level="exploration",
+   text=W+"1-4 hosts; connect, reconnect on a new connection, close of old or new connections in every order, peer requests in between: NumRemotes equals the hosts whose latest registered connection is open, connections closed before a request started are never written to, a reconnected host is instructed on its new connection only. Closes racing an in-flight request are covered by c09_registry_race.",
+   note="The pool end of every connection does what server.go does (Serve, Close, disconnect callback); the production server.go path itself is not run here.",
+   technique=TECH+"connection lifecycle event orders vs a registry reference model", design="4 C09"),
+ "C19": dict(level="exploration",
+   text=W+"Hosts register (connect and legacy host) with 16 kinds of node-URI override from 9 kinds of connection source address; what is stored and what a client is handed is parsed with the agent-side parser and net.SplitHostPort and must carry the authenticated id and the supplied/connection host and port; undeterminable addresses must be refused.",
+   note="Low simulation weight: the schedule is inert, the simulator contributes the transport-supplied source address and the three-party round trip.",
+   technique=TECH+"registration inputs x connection source addresses through the real connect path, round-trip parse oracle", design="4 C19"),
+})
+
 PENDING = {}  # property -> reason it is not claimed at this commit
 
 def main():
